@@ -30,6 +30,43 @@ func c08Round2(c *Ctx) {
 	for _, f := range truncateNotMax(p) {
 		c.Check(f.OK, "R08g", f.Key, f.Pos, "assigned, not maximised", f.Detail)
 	}
+	c.Rule("R08h", "a patch is applied in place only when every patch but the last keeps its size and the last one ends at the end of the file (shared with C12 R12e)", 5)
+	c12RuleInPlace = "R08h"
+	c12InPlace(c)
+	c12RuleInPlace = "R12e"
+	c.Rule("R08i", "what a new Apple code signature requires of its signer comes from the new certificate or the caller, never from the signature being replaced", 1)
+	if fn := p.Func("lib/fruit/csblob.(*SignatureParams).DefaultsFromSignature"); fn == nil {
+		c.Undecided("R08i", "(*SignatureParams).DefaultsFromSignature", "-", "function not found")
+	} else {
+		c.Analysed(p.FName(fn))
+		bad := ""
+		copied := 0
+		for _, b := range fn.Blocks {
+			for _, in := range b.Instrs {
+				st, ok := in.(*ssa.Store)
+				if !ok {
+					continue
+				}
+				tn, f, _ := p.fieldAddr(st.Addr)
+				if !strings.HasSuffix(tn, "csblob.SignatureParams") {
+					continue
+				}
+				fromOld := dependsOn(st.Val, func(x ssa.Value) bool {
+					t2, _, _ := p.fieldLoad(x)
+					return strings.HasSuffix(t2, "csblob.SigBlob") || strings.HasSuffix(t2, "csblob.CodeDirectory") || strings.HasSuffix(t2, "csblob.CodeDirectoryHeader")
+				})
+				if !fromOld {
+					continue
+				}
+				copied++
+				if f == "Requirements" {
+					bad = p.Pos(st.Pos())
+				}
+			}
+		}
+		c.Check(bad == "", "R08i", "DefaultsFromSignature leaves the requirements to the new signer", p.Pos(fn.Pos()), fmt.Sprintf("%d fields taken over from the old signature, Requirements not among them", copied),
+			"the designated requirement of the old signature is copied into the new signing parameters ("+bad+"): re-signing with another certificate produces a signature whose requirement still names the previous signer, which macOS rejects while relic's verifier, which does not evaluate requirements, accepts it")
+	}
 }
 
 // ------------------------------------------------------------------------------ R08e
